@@ -209,10 +209,15 @@ func runC14(e *env) {
 		n = 200
 	}
 	var specs []*modSpec
+	// the recorded finding (data with GET / DELETE) is shown by this file only
+	specs = append(specs, &modSpec{Name: "axios-get-with-body", ModPath: "example.com/org/api", Target: "routes.go", Class: "axios-data-argument-with-get-or-delete",
+		Files: []modFile{{"routes.go", "package main\n\nimport \"example.com/org/api/echo\"\n\ntype Params struct {\n\tA int\n}\n\ntype controller struct{}\n\nfunc (ct controller) search(c echo.Context) error {\n\tvar in Params\n\tif err := c.Bind(&in); err != nil {\n\t\treturn err\n\t}\n\tq := c.QueryParam(\"q\")\n\t_ = q\n\tvar out []int\n\treturn c.JSON(200, out)\n}\n\nfunc (ct controller) remove(c echo.Context) error {\n\tv := c.FormValue(\"fv\")\n\t_ = v\n\treturn nil\n}\n\nfunc routes(e *echo.Echo, ct *controller) {\n\te.GET(\"/search\", ct.search)\n\te.DELETE(\"/remove\", ct.remove)\n}\n"}, {"echo/echo.go", echoStub}}})
+	routesAvoidGetWithData = true
 	for i := 0; i < n; i++ {
 		m, _ := synthRoutes(e.r, i, false)
 		specs = append(specs, m)
 	}
+	routesAvoidGetWithData = false
 	res := make([]*httpObs, len(specs))
 	var wg sync.WaitGroup
 	sem := make(chan struct{}, 14)
@@ -246,10 +251,7 @@ func runC14(e *env) {
 			for _, q := range ep.Query {
 				kinds = append(kinds, coqStr(kindOfTypeString(q.Type)))
 			}
-			hasData := ep.Input != "" || ep.File != "" || len(ep.FormValues) > 0 || ep.JSONName != ""
-			if hasData && (ep.Method == "GET" || ep.Method == "DELETE") {
-				cls = "axios-data-argument-with-get-or-delete"
-			}
+			cls = spec.Class
 			e.m.count("verb_" + ep.Method)
 			eps = append(eps, fmt.Sprintf("{| ae := %s; ae_kinds := %s |}", coqEndpoint(ep), coqList(kinds)))
 		}
